@@ -72,20 +72,20 @@ def run(tier, seed, replay=None):
         res.coverage = {
             "obligations": ob["obligations"], "discharged": ob["discharged"], "theorems": ob["theorems"], "axioms": ob["axioms"],
             "closed_under_global_context": ob["closed_count"], "obligation_failures": ob["failed"],
-            "checker_cmd": "make -C coq; coqc Properties/C16.v; harness c16 (real interpreter, %d runs per program under GOMAXPROCS 1/2/3/4/8/16, 10 s limit); "
+            "checker_cmd": "make -C coq; coqc Properties/C16.v; harness c16 (real interpreter, %d runs per program under GOMAXPROCS 1/2/3/4/8/16, 4 s limit); "
                            "extracted channel machine entry c16" % meta["runs_per_program"],
             "trusted_base": common.TRUSTED_COMMON + ["the Go runtime's scheduler decides which schedules are exercised: the runs sample them, the theorems on the "
                                                      "abstract machine cover all of them", "an unbuffered channel is modelled with one slot"],
             "evaluations": runs + len(EXPECT), "distinct_nontrivial": len(set(p["src"] for p in meta["programs"] if p["items"])),
             "rule": "random pipelines: 0-4 mapping stages (x, x+1, x*2, x-3, -x), channel capacities 0-5, element types int64 / interface / float64, "
-                    "0-40 items, producer as for-in or counted loop, consumer as for-in, two-value receive statement or receive expression until nil; "
+                    "0-40 items, producer as for-in, counted loop, `go produce(ch, items...)` (variadic + spread) or `go produce(ch, items)` with the list reassigned afterwards, stages as anonymous or named functions started with arguments, consumer as for-in, two-value receive statement or receive expression until nil; "
                     "each run repeatedly; the collected list must equal the channel machine's; plus %d directed programs (close semantics, conversion, go "
                     "argument evaluation, FIFO)" % len(EXPECT),
             "programs": len(meta["programs"]), "runs": runs, "bad_runs": nbad, "directed_mismatches": nexp, "shapes": shapes,
             "samples": [{"src": p["src"], "runs": p["runs"][:2]} for p in meta["programs"][:2]], "make_ok": ok_make,
         }
         res.assumptions = ["items are small integers so that every stage function is exact in int64 and float64",
-                           "a run that does not finish within 10 s counts as a violation"]
+                           "a run that does not finish within 4 s counts as a violation"]
         return res.finish()
     finally:
         shutil.rmtree(scratch, ignore_errors=True)
